@@ -499,6 +499,7 @@ func runJobs(jobs []CaseB) []outcomeB {
 var propB = h.Prop[CaseB]{Name: "B-builtin-arity", Run: runB}
 
 func TestB(t *testing.T) {
+	rules()
 	h.RunProp(t, propB, 0)
 	if h.C.ReplayIn != "" {
 		return
